@@ -111,6 +111,7 @@ def gen_scenario(rng, ranks=None, kernels=None, host=None, wraps=True, be_ratio=
             c0 -= c0 % f
             H = tbase - c0 // f
             charge = rng.randrange(1 << 20, 1 << 31)
+            one_lane = rng.random() < 0.1
             nk = kernels if kernels is not None else rng.randrange(2, 9)
             c = c0 + rng.randrange(10, 2000)
             pow_series = []
@@ -143,6 +144,9 @@ def gen_scenario(rng, ranks=None, kernels=None, host=None, wraps=True, be_ratio=
                     phases.append(("Cmpt Exec", 2, 3, TID_OTHER))
                 if rng.random() < 0.12:
                     phases = [("", 0, 4, TID_OTHER)]       # "other" device event: whole TS1..TS5 span
+                if one_lane:
+                    # a device that logs all phases of a kernel on ONE stream (phases follow each other: no overlap)
+                    phases = [(kw, a, b, (TID_EXEC if tid != TID_OTHER or kw == "" else tid)) for (kw, a, b, tid) in phases]
                 for (kw, a, b, tid) in phases:
                     if ts[a] == ts[b]:
                         continue
